@@ -114,6 +114,7 @@ fn vrun(profile: &str, seed: u64, start: u64, count: u64, out: &str, verbose: bo
         tally.count("events", run.evs.len() as u64);
         tally.count("callbacks", run.cbs.len() as u64);
         tally.count("qpoints", run.qpoints.len() as u64);
+        tally.count("panics_raised_on_a_helper_thread_of_the_callback", vh::world::HELPER_THREAD_PANICS.swap(0, std::sync::atomic::Ordering::SeqCst));
         tally.count("runs_with_cli_options_parsed_from_an_argument_vector", u64::from(vh::world::with_rs(|rs| rs.cli_from_argv)));
         tally.count("polls", run.polls);
         tally.count("parked", u64::from(run.parked));
